@@ -13,3 +13,6 @@ pub use server::{RenetServer, ServerEvent};
 pub use bytes::Bytes;
 
 pub type ClientId = u64;
+
+#[cfg(feature = "verif_hooks")]
+pub mod verif;
